@@ -121,7 +121,7 @@ func (c *Ctx) bindIssuance(s Issuance, creds []Cred) {
 				// or: the value is the key that user was looked up by
 				for _, su := range subj {
 					if call, ok := su.V.(ssa.CallInstruction); ok {
-						if key := lookupKey(call); key != nil && (key == val || sameNames(c.Origins(key), vo)) {
+						if key := lookupKey(call); key != nil && verbatimEq(key, val, 0) {
 							r.Ok("C01.bind", fn, construct, pos, fmt.Sprintf("value is the look-up key of the user whose secret %s checked", cr))
 							return
 						}
@@ -179,6 +179,51 @@ func (c *Ctx) bindIssuance(s Issuance, creds []Cred) {
 		}
 	}
 	r.Bad("C01.bind", fn, construct, pos, fmt.Sprintf("identity written (origins: %s) is not derived from the subject of the dominating check(s) %s", names(vo), credKinds(creds)))
+}
+
+// verbatimEq: a and b are the same value, or the same read (the same
+// argument-less accessor on the same receiver), up to type conversions and
+// phis that merge nothing else. A transformed copy (trimmed, lower-cased,
+// re-encoded) is not the same value: the account found under the transformed
+// key need not be the account the untransformed key names.
+func verbatimEq(a, b ssa.Value, d int) bool {
+	if d > 4 {
+		return false
+	}
+	a, b = stripConv(a), stripConv(b)
+	if a == b {
+		return true
+	}
+	single := func(v ssa.Value) ssa.Value {
+		phi, ok := v.(*ssa.Phi)
+		if !ok {
+			return v
+		}
+		var only ssa.Value
+		for _, e := range phi.Edges {
+			e = stripConv(e)
+			if e == ssa.Value(phi) {
+				continue
+			}
+			if only != nil && only != e {
+				return v
+			}
+			only = e
+		}
+		if only == nil {
+			return v
+		}
+		return only
+	}
+	if sa, sb := single(a), single(b); sa != a || sb != b {
+		return verbatimEq(sa, sb, d+1)
+	}
+	ca, okA := a.(*ssa.Call)
+	cb, okB := b.(*ssa.Call)
+	if okA && okB && ca.Call.IsInvoke() && cb.Call.IsInvoke() && ca.Call.Method == cb.Call.Method && len(ca.Call.Args) == 0 && len(cb.Call.Args) == 0 {
+		return verbatimEq(ca.Call.Value, cb.Call.Value, d+1)
+	}
+	return false
 }
 
 // flattenTop keeps via: creds (their binding is decided on the callee's
